@@ -12,6 +12,7 @@ VERIF = api.VERIF
 PROP_MODULES = {
     "C04": ["contracts.c04", "contracts.c05"],
     "C05": ["contracts.c05"],
+    "C13": ["contracts.c13"],
 }
 
 
@@ -197,7 +198,7 @@ def run_property(prop, tier="quick", seed=0, only=None, verbose=False):
     return rc
 
 
-LEVELS = {"C04": "proof"}
+LEVELS = {"C04": "proof", "C13": "proof"}
 TRUSTED_COMMON = [
     "pyvc symbolic executor: encoding of CPython semantics for the subset in DESIGN.md 2.3 (integers mathematical, strings = z3 sequences of code points)",
     "z3 5.1.0 soundness (cvc5 1.0.3 / z3 4.8.12 only as fall-back on unknown)",
